@@ -116,8 +116,9 @@ class async_subject(subject):
             s.state = 1
             s.obs.clear()
             if s.has_value:
+                final = s.value  # THE final value: what it is when the subject completes (a subscriber that disposes the subject meanwhile changes nothing)
                 for o in snapshot:
-                    o.on_next(s.value)
+                    o.on_next(final)
                     o.on_completed()
             else:
                 for o in snapshot:
